@@ -45,6 +45,8 @@ def toml_for(v, rnd):
     if v["colour"] != "absent":
         key = rnd.choice(["primary", "error", "highlight", "code_background"])
         lines += ["[style.colors]", "%s = %s" % (key, VALUES["colour"][v["colour"]])]
+    if v["shape"] == "ok":
+        lines += ["[feeds]", "empty = []"]      # a feed that lists nothing is a legitimate configuration
     if v["shape"] == "unknown_table":
         lines += ["[nonsense]", "x = 1"]
     if v["shape"] == "syntax_error":
